@@ -38,7 +38,7 @@ def gen_grammar(r, with_parent_attr):
         lst = []
         for k in range(r.weighted([(1, 2), (2, 4), (3, 3), (4, 1)])):
             kind = r.weighted(KINDS)
-            if i == 0 and k == 0 and kind.startswith("p_"):
+            if i == 0 and k == 0 and not kind.startswith("cont_"):
                 kind = "cont_many"                      # the root contains something
             tgt = None
             if kind in ("cont_one", "cont_plus"):
@@ -133,11 +133,12 @@ def gen_model(r, G, max_objs):
             elif k == "cont_one":
                 o["vals"][n] = mk(t, depth + 1, anc2)
             elif k == "cont_opt":
-                if room() and r.chance(0.7 if depth < 3 else 0.35):
+                if room() and r.chance(0.95 if depth == 0 else 0.7 if depth < 3 else 0.35):
                     o["vals"][n] = mk(r.choice(closure(G, t)), depth + 1, anc2)
             elif k == "cont_many":
-                if r.chance(0.85):
-                    cnt = r.weighted([(0, 1), (1, 3), (2, 4), (3, 2)]) if depth < 3 else r.weighted([(0, 3), (1, 3), (2, 1)])
+                if depth == 0 or r.chance(0.85):
+                    cnt = (r.range(2, 4) if depth == 0 else r.weighted([(0, 1), (1, 3), (2, 4), (3, 2)]) if depth < 3
+                           else r.weighted([(0, 3), (1, 3), (2, 1)]))
                     kids = []
                     for _ in range(cnt):
                         if room():
@@ -211,8 +212,11 @@ def gen_pred(r, names, for_sel):
 
 def gen_case(r, i, thorough):
     with_parent = r.chance(0.06)
-    G = gen_grammar(r.split("g"), with_parent)
-    root, n = gen_model(r.split("m"), G, r.choice([6, 12, 20, 30]) if not thorough else r.choice([8, 16, 30, 45]))
+    for attempt in range(4):                    # prefer models with at least three objects
+        G = gen_grammar(r.split("g%d" % attempt), with_parent)
+        root, n = gen_model(r.split("m%d" % attempt), G, r.choice([6, 12, 20, 30]) if not thorough else r.choice([8, 16, 30, 45]))
+        if n >= 3:
+            break
     names = G["rules"] + list(G["abstracts"])
     rq = r.split("q")
     user = {}
@@ -230,52 +234,69 @@ def gen_case(r, i, thorough):
             q["typ"] = {"name": rq.choice(types), "form": rq.choice(["str", "cls"])}
         queries.append(q)
     return {"grammar": grammar_text(G), "text": render(G, root), "user": user, "types": types, "queries": queries,
-            "parent_attr": with_parent, "gen_objects": n}
+            "parent_attr": with_parent, "gen_objects": n,
+            # known-finding class: loading can loop forever (get_model over cyclic `parent` references)
+            "time_limit": 6 if with_parent else 120}
 
 
 # ------------------------------------------------------------------ Coq side
 IMPORTS = """From TxV Require Import Core.Base Core.Show Model.Nav Model.NavRun.
-Open Scope N_scope."""
+Open Scope N_scope.
+Definition A := Build_ameta."""
 
 
-def coq_obj(t):
+class Names:
+    """Coq definitions for the strings that occur in the cases (keeps the case terms small)."""
+
+    def __init__(self):
+        self.ix = {}
+
+    def ref(self, text):
+        if text not in self.ix:
+            self.ix[text] = "s%d" % len(self.ix)
+        return self.ix[text]
+
+    def defs(self):
+        return "\n".join("Definition %s : list N := %s." % (v, core.coq_str(k)) for k, v in self.ix.items())
+
+
+def coq_obj(t, names):
     if "prim" in t:
-        return "(Prim %d %s)" % (t["prim"], core.coq_str(t["text"]))
+        return "(Prim %d [])" % t["prim"]
     if "ref" in t:
         return "(Ref %d)" % t["ref"]
     slots = []
     for s in t["slots"]:
-        slots.append("({| aname := %s; acont := %s; amany := %s |}, %s)" % (
-            core.coq_str(s["name"]), core.coq_bool(s["cont"]), core.coq_bool(s["many"]),
-            core.coq_list([coq_obj(v) for v in s["vals"]])))
-    return "(Node %d %s %s)" % (t["id"], core.coq_str(t["cls"]), core.coq_list(slots))
+        slots.append("(A %s %s %s, %s)" % (names.ref(s["name"]), core.coq_bool(s["cont"]), core.coq_bool(s["many"]),
+                                           core.coq_list([coq_obj(v, names) for v in s["vals"]])))
+    return "(Node %d %s %s)" % (t["id"], names.ref(t["cls"]), core.coq_list(slots))
 
 
-def coq_pred(p):
+def coq_pred(p, names):
     k = p["k"]
     if k == "true":
         return "PTrue"
     if k == "false":
         return "PFalse"
     if k in ("cls", "notcls"):
-        return "(%s %s)" % ("PCls" if k == "cls" else "PNotCls", core.coq_list([core.coq_str(n) for n in p["names"]]))
+        return "(%s %s)" % ("PCls" if k == "cls" else "PNotCls", core.coq_list([names.ref(n) for n in p["names"]]))
     return "(PIdMod %d %d)" % (p["m"], p["r"])
 
 
-def coq_query(q, n):
+def coq_query(q, n, names):
     typ = "None"
     if q["typ"] is not None:
-        typ = "(Some (%s %s))" % ("TCls" if q["typ"]["form"] == "cls" else "TStr", core.coq_str(q["typ"]["name"]))
+        typ = "(Some (%s %s))" % ("TCls" if q["typ"]["form"] == "cls" else "TStr", names.ref(q["typ"]["name"]))
     root = "None" if q["root"] is None else "(Some %d)" % (q["root"] % n)
     return "{| q_root := %s; q_sel := %s; q_typ := %s; q_sf := %s; q_sfprim := %s; q_cf := %s |}" % (
-        root, coq_pred(q["sel"]), typ, coq_pred(q["sf"]), core.coq_bool(q["sfprim"]), core.coq_bool(q["cf"]))
+        root, coq_pred(q["sel"], names), typ, coq_pred(q["sf"], names), core.coq_bool(q["sfprim"]), core.coq_bool(q["cf"]))
 
 
-def coq_case(case, out):
+def coq_case(case, out, names):
     n = count_nodes(out["tree"])
-    return "String.append (if uniq_b %s then \"\" else \"DUP \")%%string (run_case %s %s %s)" % (
-        "the_tree", "the_tree", core.coq_list([core.coq_str(t) for t in case["types"]]),
-        core.coq_list([coq_query(q, n) for q in case["queries"]])), coq_obj(out["tree"])
+    return "let the_tree := %s in String.append (if uniq_b the_tree then \"\" else \"DUP \")%%string (run_case the_tree %s %s)" % (
+        coq_obj(out["tree"], names), core.coq_list([names.ref(t) for t in case["types"]]),
+        core.coq_list([coq_query(q, n, names) for q in case["queries"]]))
 
 
 def impl_line(out):
@@ -422,7 +443,7 @@ def run(chk):
         cases.append(gen_case(chk.rng.split(i), i, chk.thorough))
     outs = run_cases(cases)
     failures, disagreements = [], []
-    exprs, defs, evald = [], [], []
+    exprs, names, evald = [], Names(), []
     for k, (c, o) in enumerate(zip(cases, outs)):
         c["parent_attr"] = has_parent_attr(c)
         tags = [FINDING_TAG] if c["parent_attr"] else []
@@ -444,11 +465,9 @@ def run(chk):
             chk.sample({"grammar": c["grammar"], "text": c["text"][:300], "impl": impl_line(o)[:300]})
         if c["parent_attr"]:
             continue          # outside the model's domain (see design/C05.md); judged by the oracle only
-        e, d = coq_case(c, o)
-        exprs.append("let the_tree := t%d in %s" % (len(defs), e))
-        defs.append("Definition t%d : obj := %s." % (len(defs), d))
+        exprs.append(coq_case(c, o, names))
         evald.append((c, o))
-    vals, errs = core.coq_eval("C05", IMPORTS, exprs, defs="\n".join(defs), shard=60)
+    vals, errs = core.coq_eval("C05", IMPORTS, exprs, defs=names.defs(), shard=60)
     if errs:
         disagreements.append({"case": "coq evaluation", "model": errs[:2]})
     for (c, o), mv in zip(evald, vals):
